@@ -16,7 +16,7 @@ class Collector:
     def add(self, prop, sig, detail, inp):
         if sig in self.by_sig:
             self.by_sig[sig]["count"] += 1
-        elif len(self.by_sig) < 400:
+        elif len(self.by_sig) < 400 or sum(1 for f in self.by_sig.values() if f["prop"] == prop) < 400:
             self.by_sig[sig] = {"prop": prop, "detail": detail, "input": inp, "count": 1}
 
     def inconc(self, what):
